@@ -123,6 +123,18 @@ def build_pdf(seed: int, feature: str | None = None, twin: bool = False):
         for _ in range(rng.randint(1, 6)):
             cls = "h" if rng.random() < 0.15 else "b"
             lines.append(" ".join(exp.text(tk.new(cls), p) for _ in range(rng.randint(1, 4))))
+        if feature is None and rng.random() < 0.3:
+            # a block that reads like a financial table: a header fixing N value columns, label rows with N values, and rows
+            # with surplus numeric tokens in every spelling a report uses (the table heuristics must cope, the text must stay)
+            ncol = rng.randint(2, 4)
+            lines.append("Item " + " ".join(str(2020 + k) for k in range(ncol)))
+
+            def num():
+                return rng.choice([str(rng.randint(0, 999)), f"{rng.randint(0, 99)}.{rng.randint(0, 9)}", f"{rng.randint(1, 9)},{rng.randint(100, 999)}",
+                                   f"{rng.randint(0, 99)}.{rng.randint(0, 9)}%", f"({rng.randint(1, 99)})", f"-{rng.randint(1, 999)}", f"{rng.randint(1, 9)}"])
+            for _ in range(rng.randint(2, 5)):
+                extra = rng.choice([0, 0, 0, 1, 2, 3])
+                lines.append(exp.text(tk.new("b"), p) + " " + " ".join(num() for _ in range(ncol + extra)))
         imgs = []
 
         def img():
